@@ -14,9 +14,9 @@ import (
 type c06Case struct {
 	Cfg    LimitCfg `json:"cfg"`
 	Prefix []Sample `json:"prefix"`
-	Drop   Sample   `json:"drop"`     // (a) the single drop sample
-	Run    []Sample `json:"run"`      // (b) drop samples, cycled for as long as the bound allows
-	Const  bool     `json:"const"`    // (b) use Run[0].RTT for the whole run
+	Drop   Sample   `json:"drop"`  // (a) the single drop sample
+	Run    []Sample `json:"run"`   // (b) drop samples, cycled for as long as the bound allows
+	Const  bool     `json:"const"` // (b) use Run[0].RTT for the whole run
 }
 
 // genLossCfg: configurations for which the loss/recovery claims are stated (DESIGN 4/C06).
